@@ -1,4 +1,6 @@
 // spqh <stream> <outprefix> <seed> <tier:quick|thorough>
+#include <xmmintrin.h>
+#include <fenv.h>
 #include "hcommon.h"
 
 static std::vector<StreamReg>& regs() {
@@ -27,7 +29,18 @@ int main(int argc, char** argv) {
       uint64_t hname = 1469598103934665603ull;
       for (char ch : name) hname = (hname ^ (uint8_t)ch) * 1099511628211ull;
       Rng rng(seed ^ hname);
+      const unsigned mxcsr0 = _mm_getcsr() & ~0x3Fu;  // control bits only (rounding mode, FTZ, DAZ, exception masks)
+      const int round0 = fegetround();
       r.fn(out, rng, thorough);
+      {
+        // no library call may leave the floating-point control state changed (hidden state carried between calls)
+        const unsigned mxcsr1 = _mm_getcsr() & ~0x3Fu;
+        fprintf(out.ops, "ca nop fp-control-state-after-stream %s", name.c_str());
+        fprintf(out.real, "nop");
+        char buf[160];
+        snprintf(buf, sizeof buf, "FAIL C15 the library changed the floating-point control state (MXCSR control bits %#x -> %#x, rounding %d -> %d)", mxcsr0, mxcsr1, round0, fegetround());
+        out.endcase((mxcsr1 != mxcsr0 || fegetround() != round0) ? buf : "ok");
+      }
       fclose(out.ops);
       fclose(out.real);
       fclose(out.oracle);
